@@ -422,9 +422,9 @@ structure LoopOut (s : RState) (g : Ghost) (rs : List WalEntry) (log' : List Log
   term : (microAllS s (rs.map Micro.wal)).term = s.term
   vote : (microAllS s (rs.map Micro.wal)).votedFor = s.votedFor
 
-theorem appendOne_ok {log : List LogEntry} {s : RState} {g : Ghost} (h : LoopInv log s g) (e : LogEntry)
+theorem appendOne_ok {log : List LogEntry} {s : RState} {g : Ghost} (base : Nat) (h : LoopInv log s g) (e : LogEntry)
     (hle : e.index ≤ log.length + 1) :
-    LoopOut s g (appendOne log e).1 (appendOne log e).2 ∧ e.index ≤ (appendOne log e).2.length := by
+    LoopOut s g (appendOne base log e).1 (appendOne base log e).2 ∧ e.index ≤ (appendOne base log e).2.length := by
   unfold appendOne
   by_cases hgt : e.index > log.length
   · simp only [hgt, if_true]
@@ -440,7 +440,7 @@ theorem appendOne_ok {log : List LogEntry} {s : RState} {g : Ghost} (h : LoopInv
     have trivialOut : LoopOut s g [] log :=
       ⟨by simpa [Chain] using loopInv_P h, by simpa [microAllS, microAllG] using h,
        by simp [microAllS], by simp [microAllS]⟩
-    by_cases h0 : e.index = 0
+    by_cases h0 : e.index ≤ base
     · simp only [h0, if_true]; exact ⟨trivialOut, by omega⟩
     · simp only [h0, if_false]
       cases hget : log[e.index - 1]? with
@@ -462,19 +462,19 @@ theorem appendOne_ok {log : List LogEntry} {s : RState} {g : Ghost} (h : LoopInv
           · simp [microAllS, microS, applyEntry]
         · rw [if_neg hc]; exact ⟨trivialOut, by dsimp only; omega⟩
 
-theorem appendLoop_ok {log : List LogEntry} {s : RState} {g : Ghost} (h : LoopInv log s g)
+theorem appendLoop_ok {log : List LogEntry} {s : RState} {g : Ghost} (base : Nat) (h : LoopInv log s g)
     (es : List LogEntry) (b : Nat) (hes : WFfrom b es) (hb : b ≤ log.length) :
-    LoopOut s g (appendLoop log es).1 (appendLoop log es).2 := by
+    LoopOut s g (appendLoop base log es).1 (appendLoop base log es).2 := by
   induction es generalizing log s g b with
   | nil =>
     exact ⟨by simpa [appendLoop, Chain] using loopInv_P h, by simpa [appendLoop, microAllS, microAllG] using h,
            by simp [appendLoop, microAllS], by simp [appendLoop, microAllS]⟩
   | cons e es ih =>
     simp only [WFfrom] at hes
-    obtain ⟨o1, hlen⟩ := appendOne_ok h e (by omega)
+    obtain ⟨o1, hlen⟩ := appendOne_ok base h e (by omega)
     have o2 := ih o1.inv (b + 1) hes.2 (by omega)
-    have key : appendLoop log (e :: es) = ((appendOne log e).1 ++ (appendLoop (appendOne log e).2 es).1,
-        (appendLoop (appendOne log e).2 es).2) := rfl
+    have key : appendLoop base log (e :: es) = ((appendOne base log e).1 ++ (appendLoop base (appendOne base log e).2 es).1,
+        (appendLoop base (appendOne base log e).2 es).2) := rfl
     rw [key]
     refine ⟨?_, ?_, ?_, ?_⟩
     · rw [List.map_append]; exact (chain_append _ _).mpr ⟨o1.chain, o2.chain⟩
@@ -542,7 +542,8 @@ theorem mkEntries_wf (b : Nat) (ents : List (Nat × Nat)) : WFfrom b (mkEntries 
   | nil => simp [mkEntries, WFfrom]
   | cons x r ih => obtain ⟨t, c⟩ := x; simp only [mkEntries, WFfrom]; exact ⟨trivial, ih (b + 1)⟩
 
-theorem logOk_bound {log : List LogEntry} {pi pt : Nat} (h : logOk log pi pt = true) : pi ≤ log.length := by
+theorem logOk_bound {base : Nat} {log : List LogEntry} {pi pt : Nat} (h : logOk base log pi pt = true) :
+    pi ≤ log.length := by
   unfold logOk at h
   by_cases h0 : pi = 0
   · omega
@@ -747,6 +748,9 @@ theorem step_ok (n : Node) (s : RState) (g : Ghost) (e : Event)
   | becomeLeader =>
     simp only [step]
     exact noop_ok n _ s g _ hS hwf hsat rfl rfl rfl
+  | compact i =>
+    simp only [step]
+    exact noop_ok n _ s g _ hS hwf hsat rfl rfl rfl
   | propose cmd =>
     simp only [step]
     split
@@ -826,8 +830,8 @@ theorem step_ok (n : Node) (s : RState) (g : Ghost) (e : Event)
     · split
       · next hterm hok =>
         have hL : LoopInv n1.log (microAllS s m1) g := ⟨hwf1, hS1.2.2, hsat1⟩
-        have o := appendLoop_ok hL (mkEntries prevIdx ents) prevIdx (mkEntries_wf _ _) (logOk_bound hok)
-        generalize hr : appendLoop n1.log (mkEntries prevIdx ents) = r at *
+        have o := appendLoop_ok n1.base hL (mkEntries prevIdx ents) prevIdx (mkEntries_wf _ _) (logOk_bound hok)
+        generalize hr : appendLoop n1.base n1.log (mkEntries prevIdx ents) = r at *
         obtain ⟨ochain, oinv, oterm, ovote⟩ := o
         have e1 : microAllS s (m1 ++ r.1.map Micro.wal) = microAllS (microAllS s m1) (r.1.map Micro.wal) := by
           simp [microAllS, List.foldl_append]
@@ -841,13 +845,13 @@ theorem step_ok (n : Node) (s : RState) (g : Ghost) (e : Event)
         have hterm2 : n1.term = s2.term := by rw [oterm]; exact hS1.1
         have hP3 := P_ackTerm _ _ n1.term hP2 (by rw [hterm2]; exact Nat.le_refl _)
         have htail : Chain s2 g2 [.ackTerm n1.term,
-            .ackLog (r.2.filter (fun e => decide (e.index ≤ min (prevIdx + ents.length) r.2.length)))] := by
+            .ackLog ((r.2.drop n1.base).filter (fun e => decide (e.index ≤ min (prevIdx + ents.length) r.2.length)))] := by
           refine ⟨hP2, hP3, ?_⟩
           simp only [microS, Chain]
           refine P_ackLog _ _ _ hP3 ?_
           intro a ha
           rw [oinv.2.1]
-          exact List.mem_map_of_mem (List.mem_filter.mp ha).1
+          exact List.mem_map_of_mem (List.mem_of_mem_drop (List.mem_filter.mp ha).1)
         refine ⟨?_, ?_, oinv.1⟩
         · refine (chain_append _ _).mpr ⟨(chain_append _ _).mpr ⟨hc1, ?_⟩, ?_⟩
           · rw [hg1]; exact ochain
@@ -1090,6 +1094,7 @@ theorem step_votes (n : Node) (e : Event) (t c : Nat) (h : Micro.ackVote t c ∈
     · exact absurd h (stepDownOut_no_vote _ _ _ _)
     · simp at h
   | becomeLeader => simp [step] at h
+  | compact i => simp [step] at h
   | propose cmd =>
     simp only [step] at h ⊢
     split at h <;> simp at h
